@@ -78,8 +78,8 @@ def expr(e, out):
         out.w("]")
     elif k == "ctor":
         out.w(e["ty"])
-        if e["case"]:
-            out.w("::", e["case"])
+        if e["case"] != "":
+            out.w("::", cname(e["case"]))
         out.w("{")
         for f in e["fields"]:
             out.w(f["name"], ":")
@@ -136,6 +136,11 @@ def expr(e, out):
         raise core.ToolError(f"pp: unknown expression tag {k}")
 
 
+def cname(x):
+    """case names are strings, or integers printed as C<i> (generated many-case types)"""
+    return x if isinstance(x, str) else "C%d" % int(x)
+
+
 def absent(x):
     return x is None or (isinstance(x, dict) and x.get("k") == "absent")
 
@@ -172,7 +177,7 @@ def program_tokens(P, txname="t"):
                 out.w(f["name"], ":", type_name(f["ty"]), ",")
         else:
             for c in ty["cases"]:
-                out.w(c["name"])
+                out.w(cname(c["name"]))
                 if c["fields"]:
                     out.w("{")
                     for f in c["fields"]:
